@@ -367,6 +367,8 @@ def run(ctx, which):
     if len(ctx.violations) >= 3:
         return      # decided; the later streams only add more of the same
     bad_arity_stream(ctx, world)
+    if which == "C07":
+        ill_typed_stream(ctx, world)
     resolution_across_edits(ctx, world)
     if which == "C07":
         table_cycle_stream(ctx)
@@ -603,6 +605,108 @@ def resolution_across_edits(ctx, world):
                        "node was attached / detached / attached again"
                        % (shape_, [(a, type(b).__name__) for a, b in seq]))
             return
+
+
+def ill_typed_stream(ctx, world):
+    """The `none` branch of the model's encoder: a value whose Python class
+    is not the one the type name asks for. The model says `none`
+    (`hasType'_iff_encode`); the codecs raise. Where Python's duck typing is
+    more liberal than the model (a bool where an integer is asked for, any
+    Sequence for `sequence`, any Collection for `set` / `tuple`) the pair is
+    left out. Informative: C07 speaks of values OF the type, so a codec
+    that started to accept more would not violate it - disagreements are
+    counted in the evidence (`ill-typed:...`), not reported."""
+    import gtirb
+    u = uuidlib.UUID(int=0x1234)
+    vals = {     # kind -> (python value, tokens)
+        "int": (5, ["i", "5"]),
+        "bool": (True, ["b", "1"]),
+        "float": (1.5, ["d", str(cc.f64_bits(1.5))]),
+        "str": ("x", ["s", cc.hexs("x")]),
+        "uuid": (u, ["u", u.bytes.hex()]),
+        "list": ([1], ["L", "1", "i", "1"]),
+        "set": ({1}, ["S", "1", "i", "1"]),
+        "dict": ({1: 2}, ["M", "1", "i", "1", "i", "2"]),
+        "tuple": ((1, 2), ["T", "2", "i", "1", "i", "2"]),
+        "variant": (gtirb.serialization.Variant(0, 1), ["V", "0", "i", "1"]),
+        "offset": (gtirb.Offset(u, 3), ["o", "u", u.bytes.hex(), "3"]),
+    }
+    # type name -> kinds of value that are NOT of the type and that Python's
+    # isinstance tests do not let through either
+    types = {
+        "uint8_t": ["float", "str", "uuid", "list", "set", "dict", "tuple",
+                    "variant", "offset"],
+        "int64_t": ["float", "str", "uuid", "list", "dict", "variant"],
+        "bool": ["int", "float", "str", "uuid", "list", "variant"],
+        "double": ["int", "bool", "str", "uuid", "list", "tuple"],
+        "float": ["int", "str", "set", "offset"],
+        "string": ["int", "bool", "float", "uuid", "list", "set", "dict",
+                   "tuple", "variant", "offset"],
+        "UUID": ["int", "bool", "float", "str", "list", "set", "dict",
+                 "tuple", "variant", "offset"],
+        "Offset": ["int", "bool", "float", "str", "uuid", "list", "set",
+                   "dict", "tuple", "variant"],
+        "sequence<uint8_t>": ["int", "bool", "float", "str", "uuid", "set",
+                              "dict", "variant", "offset"],
+        "set<uint8_t>": ["int", "bool", "float", "str", "uuid", "variant",
+                         "offset"],
+        "mapping<uint8_t,uint8_t>": ["int", "bool", "float", "str", "uuid",
+                                     "list", "set", "tuple", "variant",
+                                     "offset"],
+        "tuple<uint8_t,uint8_t>": ["int", "bool", "float", "str", "uuid",
+                                   "variant", "offset"],
+        "variant<uint8_t,string>": ["int", "bool", "float", "str", "uuid",
+                                    "list", "set", "dict", "tuple",
+                                    "offset"],
+    }
+    cases = [(tn, vals[k][0], vals[k][1], k) for tn, ks in types.items()
+             for k in ks]
+    # out of range and ill-typed inside containers
+    cases += [("uint8_t", 256, ["i", "256"], "range"),
+              ("uint8_t", -1, ["i", "-1"], "range"),
+              ("int8_t", -129, ["i", "-129"], "range"),
+              ("int8_t", 128, ["i", "128"], "range"),
+              ("uint64_t", 2**64, ["i", str(2**64)], "range"),
+              ("int64_t", 2**63, ["i", str(2**63)], "range"),
+              ("int64_t", -2**63 - 1, ["i", str(-2**63 - 1)], "range"),
+              ("sequence<string>", [5], ["L", "1", "i", "5"], "nested"),
+              ("mapping<string,uint8_t>", {"a": "b"},
+               ["M", "1", "s", cc.hexs("a"), "s", cc.hexs("b")], "nested"),
+              ("mapping<string,uint8_t>", {1: 2},
+               ["M", "1", "i", "1", "i", "2"], "nested"),
+              ("tuple<uint8_t,string>", (1, 2), ["T", "2", "i", "1", "i", "2"],
+               "nested"),
+              ("tuple<uint8_t,string>", (1,), ["T", "1", "i", "1"], "nested"),
+              ("variant<uint8_t,string>",
+               gtirb.serialization.Variant(1, 7), ["V", "1", "i", "7"],
+               "nested"),
+              ("variant<uint8_t,string>",
+               gtirb.serialization.Variant(2, 7), ["V", "2", "i", "7"],
+               "nested"),
+              ("set<string>", {5}, ["S", "1", "i", "5"], "nested"),
+              ("sequence<sequence<uint8_t>>", [[1], 2],
+               ["L", "2", "L", "1", "i", "1", "i", "2"], "nested")]
+    lines = ["reset"] + ["enc %s %s" % (cc.hexs(tn), " ".join(tok))
+                         for tn, _, tok, _ in cases]
+    out = core.lean_batch("codec", lines)[1:]
+    for (tn, v, tok, kind), lean in zip(cases, out):
+        try:
+            b = cc.impl_encode(gtirb, tn, v)
+            impl = "ok " + (b.hex() or "-")
+        except (Exception, core.ImplTimeout):   # noqa
+            impl = "none"
+        ctx.evaluations += 1
+        if impl == lean:
+            ctx.count("ill-typed:both-reject" if lean == "none"
+                      else "ill-typed:both-accept")
+        elif lean == "none":
+            ctx.count("ill-typed:implementation-more-liberal")
+            ctx.extra.setdefault("ill_typed_liberal", []).append(
+                "%s <- %s" % (tn, kind))
+        else:
+            ctx.count("ill-typed:model-more-liberal")
+            ctx.extra.setdefault("ill_typed_model_liberal", []).append(
+                "%s <- %s: %s vs %s" % (tn, kind, impl[:30], lean[:30]))
 
 
 def bad_arity_stream(ctx, world):
